@@ -511,12 +511,7 @@ def register(M):
                     raise AbsRaise(ExcVal('TypeError', ('int() argument must be a number, not NoneType',)), node)
                 if src == 'm8':
                     d = X.scale(d, Fr(1) / UNIT_SECONDS[sunit])
-                if X.is_num(d):
-                    d = X.num(trunc_fr(d[1]))
-                elif d == X.NAN:
-                    d = X.ANY
-                elif src in ('f8', 'O', 'm8') and d != X.ANY:
-                    d = X.fn('trunc', d)
+                d = trunc_expr(d, src)
             elif code == 'b1':
                 d = bool_of_el(d)
             elif code == 'm8':
@@ -1272,6 +1267,21 @@ def register(M):
 
     from . import models_pd
     models_pd.register(M, dict(ext=ext, meth=meth, kwarg=kwarg, as_vec=as_vec, astype=astype, to_array=to_array))
+
+
+def trunc_expr(d, src):
+    """integer conversion of an element expression (pushed into the leaves of ite trees)"""
+    if X.is_num(d):
+        return X.num(trunc_fr(d[1]))
+    if d == X.NAN:
+        return X.ANY
+    if d == X.ANY:
+        return d
+    if d[0] == 'ite':
+        return X.ite(d[1], trunc_expr(d[2], src), trunc_expr(d[3], src))
+    if src in ('f8', 'O', 'm8'):
+        return X.fn('trunc', d)
+    return d
 
 
 def as_series_values(interp, v, nrows, node):
